@@ -102,7 +102,9 @@ def handle (j : Json) : IO Unit := do
     -- the strategy composed with the registry's own lookup must be the decision table on that lookup
     let m := route active typ fb rom (.ok healthy) healthy lookup
     let mo := Obs.ofRouted m
-    let agree := o == mo && jbool (jget impl "err") == m.err && sortNat (registryLookup listings model) == sortNat lookup
+    -- model_registry.enable_unifier: false: the plain registry resolves a name by exact match only
+    let modelLookup := if jbool (jget j "plain") then lo else registryLookup listings model
+    let agree := o == mo && jbool (jget impl "err") == m.err && sortNat modelLookup == sortNat lookup
     let bracket := lo.all (fun e => lookup.contains e) && lookup.all (fun e => up.contains e)
     let v := if !bracket then some "lookup-outside-listings" else routeViolation typ fb rom (.ok healthy) healthy lookup o
     let branch := "reg." ++ (if lo.isEmpty && !up.isEmpty then "alias-or-case" else if up.isEmpty then "unknown" else "native") ++ "/" ++ mo.action
